@@ -103,8 +103,14 @@ func HarnessC18Defaults() {
 	obj := map[string]interface{}{}
 	keys := []string{"a", "b", "k"}
 	switch verifChoose(5) {
-	case 0: // plain properties
-		s = objWith(map[string]spec.Schema{"a": numSchema(10.0), "b": numSchema(20.0), "k": numSchema(nil)})
+	case 0: // plain properties; n has a default and no type, so that null is a valid value for it
+		n := spec.Schema{}
+		n.Default = 7.0
+		s = objWith(map[string]spec.Schema{"a": numSchema(10.0), "b": numSchema(20.0), "k": numSchema(nil), "n": n})
+		keys = append(keys, "n")
+		if verifBool() {
+			obj["n"] = nil // present with the value null: must be kept
+		}
 	case 1: // allOf: each member contributes defaults
 		s.AllOf = []spec.Schema{objWith(map[string]spec.Schema{"a": numSchema(10.0)}), objWith(map[string]spec.Schema{"b": numSchema(20.0), "a": numSchema(11.0)})}
 	case 2: // anyOf selected by member k
@@ -155,18 +161,29 @@ func HarnessC18Nested() {
 	}
 	before := copyObj(el)
 	var data interface{}
-	switch verifChoose(3) {
+	switch verifChoose(6) {
 	case 0:
 		s = objWith(map[string]spec.Schema{"o": inner})
 		data = map[string]interface{}{"o": el}
 	case 1:
 		s.Items = &spec.SchemaOrArray{Schema: &inner}
-		data = []interface{}{el}
-	default:
+		data = []interface{}{map[string]interface{}{"a": 5.0}, el}
+	case 2:
 		arr := spec.Schema{}
 		arr.Items = &spec.SchemaOrArray{Schemas: []spec.Schema{inner}}
 		s = objWith(map[string]spec.Schema{"t": arr})
 		data = map[string]interface{}{"t": []interface{}{el}}
+	case 3: // an array that is itself an element of an array
+		row := spec.Schema{}
+		row.Items = &spec.SchemaOrArray{Schema: &inner}
+		s.Items = &spec.SchemaOrArray{Schema: &row}
+		data = []interface{}{[]interface{}{el}}
+	case 4: // object reached through schema-valued additionalProperties
+		s.AdditionalProperties = &spec.SchemaOrBool{Allows: true, Schema: &inner}
+		data = map[string]interface{}{"any": el}
+	default: // object reached through the second allOf member
+		s.AllOf = []spec.Schema{{}, objWith(map[string]spec.Schema{"o": inner})}
+		data = map[string]interface{}{"o": el}
 	}
 	res := validate.NewSchemaValidator(&s, nil, "", nil).Validate(data)
 	verifAssume(res.IsValid())
@@ -305,18 +322,29 @@ func HarnessC19Nested() {
 	}
 	before := copyObj(el)
 	var data interface{}
-	switch verifChoose(3) {
+	switch verifChoose(6) {
 	case 0:
 		s = objWith(map[string]spec.Schema{"o": inner})
 		data = map[string]interface{}{"o": el, "junk": 1.0}
 	case 1:
 		s.Items = &spec.SchemaOrArray{Schema: &inner}
-		data = []interface{}{el, map[string]interface{}{"z": 1.0}}
-	default:
+		data = []interface{}{map[string]interface{}{"z": 1.0}, el}
+	case 2:
 		arr := spec.Schema{}
 		arr.Items = &spec.SchemaOrArray{Schemas: []spec.Schema{inner}}
 		s = objWith(map[string]spec.Schema{"t": arr})
 		data = map[string]interface{}{"t": []interface{}{el}}
+	case 3: // an array that is itself an element of an array
+		row := spec.Schema{}
+		row.Items = &spec.SchemaOrArray{Schema: &inner}
+		s.Items = &spec.SchemaOrArray{Schema: &row}
+		data = []interface{}{[]interface{}{el}}
+	case 4: // object reached through schema-valued additionalProperties
+		s.AdditionalProperties = &spec.SchemaOrBool{Allows: true, Schema: &inner}
+		data = map[string]interface{}{"any": el}
+	default: // object reached through the second allOf member
+		s.AllOf = []spec.Schema{{}, objWith(map[string]spec.Schema{"o": inner})}
+		data = map[string]interface{}{"o": el}
 	}
 	res := validate.NewSchemaValidator(&s, nil, "", nil).Validate(data)
 	verifAssume(res.IsValid())
